@@ -36,8 +36,8 @@ TRUSTED_BASE = [
 ASSUMPTIONS = [
     "element values are integers (int64, small): dtype resolution, casting, float semantics and overflow are not "
     "modelled (differential_only)",
-    "np.argsort's unstable tie order inside _match_coo is modelled by a stable sort; the final result is re-sorted "
-    "by the COO constructor, so the tie order is unobservable",
+    "np.argsort inside _match_coo returns SOME sorting permutation (is_argsort): all theorems quantify over it and "
+    "argsort_irrelevant shows the result does not depend on it; the correspondence runs the stable instance",
     "the memo `cache=` of _match_coo and the object swap of out= / in-place forms are not modelled (C11)",
 ]
 
@@ -854,19 +854,19 @@ def gen_diff_cases(tier, rng):
 # ------------------------------------------------------------------ Coq literals
 def fmt_lit(a):
     if a["kind"] == "scipy":
-        return "FScipy"
+        return "AScipy"
     f = a["spec"]["format"]
     if f == "coo":
-        return "FCoo"
+        return "ACoo"
     if f == "dok":
-        return "FDok"
+        return "ADok"
     ca = a["spec"].get("caxes")
     nd = len(a["spec"]["shape"])
     if nd < 2:
-        return "(FGcxs [])"
+        return "(AGcxs [])"
     if ca is None:
         ca = [min(range(nd), key=lambda i: a["spec"]["shape"][i])]      # GCXS default: argmin(shape)
-    return "(FGcxs %s)" % vlist(ca)
+    return "(AGcxs %s)" % vlist(ca)
 
 
 def jarg_lit(a):
@@ -1093,13 +1093,12 @@ def campaign(build, tier, seed, report, budget=1):
 
 
 UNPROVED = [
-    "Model.Elemwise.elemwise2 (the written-out same-shape three-mask model of theorem elemwise2_den) = the general "
-    "elemwise on [a; b]: checked by correspondence only (judge_elemwise2); both are proved equal to the Spec separately",
-    "np.argsort's unstable tie order inside _match_coo: the model uses a stable sort; the proofs use only that argsort is "
-    "a sorting permutation (argsort_perm, argsort_sorted) but no theorem is stated over all sorting permutations",
-    "output-format rule (out_format / result_format) and the final .asformat(...) conversion to GCXS / DOK: correspondence only",
+    "elemwise_api_den holds under two named domain clauses of the final asformat conversion (api_hop_ok): the hop is "
+    "accepted for the result's shape (Convert.hop_okb: valid compressed axes) and a 0-d result is not converted to DOK "
+    "(C05 finding zero_dim_from_iter); scipy.sparse operands (COO.from_scipy_sparse) are covered by correspondence only",
+    "store_programs_den models objects as whole attribute dictionaries (C11's shallow_copy_of): views of the coords/data "
+    "buffers and DOK item assignment are not in the statement language; dtype changes of astype are value-preserving only",
     "ufunc dtype resolution, astype casting, float / complex semantics, overflow: differential only (coverage.differential_only)",
-    "in-place operators and out=: only the functional result is compared; the object swap is not modelled",
 ]
 
 
